@@ -16,15 +16,18 @@ type T0 struct{ K int }
 type T1 struct{ K int }
 type T2 struct{ K int }
 type T3 struct{ K int }
-type T4 struct{ K int }
-type T5 struct{ K int }
+// t4 and t5 have lower-case type names on purpose: their reflect String()
+// ("engine.t4") can then occur inside (lower-cased) value names, which is what
+// label-collision scenarios need.
+type t4 struct{ K int }
+type t5 struct{ K int }
 
 func (v T0) Token() int { return v.K }
 func (v T1) Token() int { return v.K }
 func (v T2) Token() int { return v.K }
 func (v T3) Token() int { return v.K }
-func (v T4) Token() int { return v.K }
-func (v T5) Token() int { return v.K }
+func (v t4) Token() int { return v.K }
+func (v t5) Token() int { return v.K }
 
 // I0 is implemented by T0 and T1; I1 by T1 and T2 (so T1 implements both).
 type I0 interface {
@@ -51,7 +54,7 @@ const (
 // Types is the universe, indexed by type number.
 var Types = []reflect.Type{
 	reflect.TypeOf(T0{}), reflect.TypeOf(T1{}), reflect.TypeOf(T2{}),
-	reflect.TypeOf(T3{}), reflect.TypeOf(T4{}), reflect.TypeOf(T5{}),
+	reflect.TypeOf(T3{}), reflect.TypeOf(t4{}), reflect.TypeOf(t5{}),
 	reflect.TypeOf((*I0)(nil)).Elem(), reflect.TypeOf((*I1)(nil)).Elem(),
 }
 
